@@ -1611,3 +1611,401 @@ def real_loop_cases(workdir, kinds=('local', 'remote', 'socks5', 'lpath'),
         loop.close()
         shutil.rmtree(tmp, ignore_errors=True)
     return results
+
+
+# ======================================================================
+# Listeners: several listeners on one connection (specs/Forward/Listeners)
+# ======================================================================
+
+ML_HOSTS = {'h1': '127.0.0.1', 'h2': '127.0.0.2'}
+ML_DEST_PORT = 7100
+
+
+def _free_ports(n):
+    """n port numbers that are free on every listen address right now"""
+    import socket as _s
+    out = []
+    for _ in range(200):
+        s1 = _s.socket()
+        try:
+            s1.bind((ML_HOSTS['h1'], 0))
+            p = s1.getsockname()[1]
+            s2 = _s.socket()
+            try:
+                s2.bind((ML_HOSTS['h2'], p))
+                if p not in out:
+                    out.append(p)
+            except OSError:
+                pass
+            finally:
+                s2.close()
+        finally:
+            s1.close()
+        if len(out) == n:
+            return out
+    raise RuntimeError('no free loopback ports')
+
+
+class TagEcho(asyncio.Protocol):
+    """destination k: answers every chunk with D<k>:<chunk>"""
+
+    def __init__(self, world, k):
+        self.world, self.k = world, k
+
+    def connection_made(self, transport):
+        self.t = transport
+        self.world.hits.append(self.k)
+
+    def data_received(self, data):
+        self.t.write(b'D%d:' % self.k + data)
+
+
+class MultiWorld:
+    """One SSH connection; listener slot k forwards to destination k."""
+
+    def __init__(self, nslots=4, dst_variant=0):
+        world = self
+        self.loop = loop = new_loop()
+        self.n = nslots
+        self.dst_variant = dst_variant
+        self.hits = []              # destination k was connected to
+        self.requests = []          # server: (dest, orig) of direct-tcpip opens
+        self.factory_calls = []     # (k, orig_host, orig_port)
+        self.wire = []              # channel opens written by the server
+        self.lsn = {}
+        self.addr = {}              # slot -> address L connects to
+        self.cfg = {}
+        self.open_slots = set()
+        self.closed_slots = set()
+        self.l1 = []
+        self.nping = 0
+        k = keys()
+        self.fixed = dict(zip(('P', 'Q'), _free_ports(2)))
+        _verif.set_sink(self._sink)
+
+        class Server(asyncssh.SSHServer):
+            def connection_made(self, conn):
+                world.sconn = conn
+
+            def begin_auth(self, username):
+                return False
+
+            def connection_requested(self, dest_host, dest_port, orig_host,
+                                     orig_port):
+                world.requests.append(((dest_host, dest_port),
+                                       (orig_host, orig_port)))
+                return True
+
+            def unix_connection_requested(self, dest_path):
+                world.requests.append((dest_path, None))
+                return True
+
+            def server_requested(self, listen_host, listen_port):
+                return True
+
+            def unix_server_requested(self, listen_path):
+                return True
+
+        async def go():
+            self.acceptor = await asyncssh.listen(
+                '127.0.0.1', 2222, server_factory=Server,
+                server_host_keys=[k['host']])
+            self.dests = []
+            for i in range(1, nslots + 1):
+                self.dests.append(await loop.create_server(
+                    lambda i=i: TagEcho(world, i), '127.0.0.1',
+                    ML_DEST_PORT + i))
+                self.dests.append(await loop.create_unix_server(
+                    lambda i=i: TagEcho(world, i), f'c20-d{i}.sock'))
+            self.conn = await asyncssh.connect(
+                '127.0.0.1', 2222, known_hosts=None, config=None,
+                client_keys=None)
+        loop.run_until_complete(go())
+        loop.run_until_idle()
+
+    def _sink(self, ev, f):
+        if ev == 'pkt_out' and f['pkttype'] == 90 and \
+                f['conn'] is getattr(self, 'sconn', None):
+            from asyncssh.packet import SSHPacket
+            try:
+                p = SSHPacket(f['payload'])
+                p.get_byte()
+                ctype = p.get_string()
+                p.get_uint32(), p.get_uint32(), p.get_uint32()
+                if ctype == b'forwarded-tcpip':
+                    rec = ('tcp', p.get_string().decode(), p.get_uint32(),
+                           p.get_string().decode(), p.get_uint32())
+                elif ctype == b'forwarded-streamlocal@openssh.com':
+                    rec = ('unix', p.get_string().decode())
+                else:
+                    rec = (ctype.decode(),)
+            except Exception as exc:    # pylint: disable=broad-except
+                rec = ('unparsable', repr(exc))
+            self.wire.append(rec)
+
+    def flag(self, clause, detail, key=''):
+        if not any(c == clause for c, _, _ in self.l1):
+            self.l1.append((clause, detail, key))
+
+    def dest_is_unix(self, k):
+        return (k + self.dst_variant) % 2 == 0
+
+    # ------------------------------------------------------------------
+    def open(self, k, c):
+        """-> True if the listener was created"""
+        loop, conn = self.loop, self.conn
+        kind = c['kind']
+        self.cfg[k] = c
+        host = ML_HOSTS.get(c['host'])
+        port = 0 if c['port'] == 'dyn' else self.fixed.get(c['port'], 0)
+        dhost, dport = '127.0.0.1', ML_DEST_PORT + k
+        dpath, lpath = f'c20-d{k}.sock', f'c20-l{k}.sock'
+        unix_dst = self.dest_is_unix(k)
+        world = self
+
+        def handler_factory(orig_host, orig_port):
+            world.factory_calls.append((k, orig_host, orig_port))
+            world.hits.append(k)
+
+            async def handler(reader, writer):
+                try:
+                    while True:
+                        data = await reader.read(65536)
+                        if not data:
+                            break
+                        writer.write(b'D%d:' % k + data)
+                except Exception:       # pylint: disable=broad-except
+                    pass
+                writer.close()
+            return handler
+
+        async def go():
+            if kind == 'rfwd':
+                if unix_dst:
+                    return await conn.forward_remote_port_to_path(host, port,
+                                                                  dpath)
+                return await conn.forward_remote_port(host, port, dhost, dport)
+            if kind == 'rsrv':
+                return await conn.start_server(handler_factory, host, port)
+            if kind == 'lfwd':
+                if unix_dst:
+                    return await conn.forward_local_port_to_path(host, port,
+                                                                 dpath)
+                return await conn.forward_local_port(host, port, dhost, dport)
+            if kind == 'socks':
+                return await conn.forward_socks(host, port)
+            if kind == 'lpath':
+                if unix_dst:
+                    return await conn.forward_local_path(lpath, dpath)
+                return await conn.forward_local_path_to_port(lpath, dhost,
+                                                             dport)
+            if kind == 'rpath':
+                if unix_dst:
+                    return await conn.forward_remote_path(lpath, dpath)
+                return await conn.forward_remote_path_to_port(lpath, dhost,
+                                                              dport)
+            raise ValueError(kind)
+        try:
+            lsn = loop.run_until_complete(go())
+        except (OSError, asyncssh.ChannelListenError):
+            loop.run_until_idle()
+            return False
+        loop.run_until_idle()
+        if lsn is None:
+            return False
+        self.lsn[k] = lsn
+        self.addr[k] = ('unix', lpath) if kind in ('lpath', 'rpath') \
+            else (host, lsn.get_port())
+        self.open_slots.add(k)
+        return True
+
+    def close(self, k):
+        lsn = self.lsn[k]
+
+        async def go():
+            lsn.close()
+            await lsn.wait_closed()
+        self.loop.run_until_complete(go())
+        self.loop.run_until_idle()
+        self.open_slots.discard(k)
+        self.closed_slots.add(k)
+
+    def connect(self, k):
+        """Connect into listener k's address, send a ping, return the slot
+        whose destination answered (0: refused / nothing came back)."""
+        loop = self.loop
+        c = self.cfg[k]
+        flag = lambda clause, detail: self.flag(clause, detail, f'{c["kind"]}:{c["port"]}')
+        addr = self.addr[k]
+        app = App(self, 'L', True)
+        n_hits, n_req, n_wire, n_fact = (len(self.hits), len(self.requests),
+                                         len(self.wire),
+                                         len(self.factory_calls))
+
+        async def cl():
+            if addr[0] == 'unix':
+                await loop.create_unix_connection(lambda: app, addr[1])
+            else:
+                await loop.create_connection(lambda: app, *addr)
+        try:
+            loop.run_until_complete(cl())
+        except OSError:
+            loop.run_until_idle()
+            return 0
+        loop.run_until_idle()
+        sockname = app.t.get_extra_info('sockname')
+        skip = 0
+        if c['kind'] == 'socks':
+            p = ML_DEST_PORT + k
+            for m in (b'\x05\x01\x00', b'\x05\x01\x00\x01\x7f\x00\x00\x01' +
+                      bytes((p >> 8, p & 255))):
+                app.t.write(m)
+                loop.run_until_idle()
+            skip = 12
+        self.nping += 1
+        ping = b'ping-%d-%d' % (k, self.nping)
+        app.t.write(ping)
+        loop.run_until_idle()
+        data = bytes(app.data[skip:])
+        got = 0
+        if data.endswith(ping) and data[:1] == b'D' and b':' in data:
+            try:
+                got = int(data[1:data.index(b':')])
+            except ValueError:
+                got = -1
+            if data != b'D%d:' % got + ping:
+                got = -1
+        elif data:
+            got = -1
+        if not app.lost:
+            app.t.close()
+        loop.run_until_idle()
+        # ---- monitors -------------------------------------------------
+        hits = self.hits[n_hits:]
+        is_open = k in self.open_slots
+        if is_open:
+            if got not in (k, 0) or any(h != k for h in hits):
+                flag('Routing', f'bytes entering listener {k} '
+                          f'({_cfgstr(c)} at {addr}) came out at destination '
+                          f'{got if got > 0 else hits} instead of {k}')
+            elif got == 0:
+                flag('Routing', f'a connection into the open listener '
+                          f'{k} ({_cfgstr(c)} at {addr}) was not served: '
+                          f'{data[:40]!r}')
+        else:
+            if got != 0 or hits:
+                flag('ClosedRefuses', f'the address of closed listener '
+                          f'{k} ({_cfgstr(c)}) still serves connections')
+        if is_open and c['kind'] in ('rfwd', 'rsrv', 'rpath'):
+            opens = self.wire[n_wire:]
+            want = ('unix', addr[1]) if c['kind'] == 'rpath' else \
+                ('tcp', addr[0], addr[1])
+            for w in opens:
+                if w[:len(want)] != want:
+                    flag('WirePort', f'channel open for a connection '
+                              f'accepted by listener {k} at {addr} names '
+                              f'{w[:3]} (RFC 4254 7.2: address and port that '
+                              'were connected)')
+                elif w[0] == 'tcp' and tuple(w[3:5]) != tuple(sockname[:2]):
+                    flag('Originator', f'forwarded-tcpip open reports '
+                              f'originator {w[3:5]}, the connection came '
+                              f'from {sockname}')
+        if is_open and c['kind'] == 'rsrv':
+            for fk, oh, op in self.factory_calls[n_fact:]:
+                if (oh, op) != tuple(sockname[:2]):
+                    flag('Originator', f'listener {fk} was told '
+                              f'originator {(oh, op)}, the connection came '
+                              f'from {sockname}')
+        if is_open and c['kind'] in ('lfwd', 'socks'):
+            for dest, orig in self.requests[n_req:]:
+                if orig is not None and tuple(orig) != tuple(sockname[:2]):
+                    flag('Originator', f'server was told originator '
+                              f'{orig}, the connection came from {sockname}')
+                if isinstance(dest, tuple) and \
+                        dest != ('127.0.0.1', ML_DEST_PORT + k):
+                    flag('Routing', f'listener {k} asked the server for '
+                              f'{dest} instead of its destination')
+        return got if got > 0 else 0
+
+    def finish(self):
+        loop = self.loop
+        addrs = [self.addr[k] for k in self.open_slots | self.closed_slots]
+        self.conn.close()
+        loop.run_until_idle()
+        left = [a for a in addrs if a in loop.net.listeners]
+        if left:
+            self.flag('NoListenerLeft', f'listeners {left} survive their '
+                      'connection')
+        socks = [t for t in loop.net.transports
+                 if isinstance(t.protocol, SSHForwarder) and not t.closed]
+        if socks:
+            self.flag('NoListenerLeft', f'{len(socks)} relayed socket(s) '
+                      'survive the SSH connection')
+
+    def listening(self):
+        return sorted(k for k in self.addr if self.addr[k] in
+                      self.loop.net.listeners and k in self.open_slots)
+
+    def stop(self):
+        _verif.set_sink(None)
+        try:
+            self.conn.abort()
+            self.acceptor.close()
+            for d in self.dests:
+                d.close()
+            self.loop.run_until_idle()
+        except BaseException:           # pylint: disable=broad-except
+            pass
+        close_loop(self.loop)
+
+
+def _cfgstr(c):
+    return f'{c["kind"]}:{c["host"]}:{c["port"]}'
+
+
+def replay_listeners(steps, nslots=4, dst_variant=0):
+    """steps: [(lbl, state)] of a Listeners.tla behaviour, or bare labels
+    (then there is no conformance comparison)."""
+    w = MultiWorld(nslots, dst_variant)
+    res = {'l1': [], 'diverged': None, 'script': []}
+    try:
+        for i, step in enumerate(steps):
+            lbl, st = step if isinstance(step, tuple) and len(step) == 2 \
+                and isinstance(step[1], dict) else (step, None)
+            op, k = lbl[0], lbl[1]
+            div = None
+            if op == 'open':
+                c, want = lbl[2], lbl[3] if len(lbl) > 3 else None
+                ok = w.open(k, c)
+                res['script'].append(f'open{k}={_cfgstr(c)}')
+                if want is not None and ok != want:
+                    div = f'open {k} {_cfgstr(c)}: code={ok} model={want}'
+            elif op in ('connect', 'cclosed'):
+                if k not in w.addr:
+                    div = f'{op} {k}: listener was never created'
+                else:
+                    got = w.connect(k)
+                    res['script'].append(f'{op}{k}->{got}')
+                    if len(lbl) > 2 and got != lbl[2]:
+                        div = f'{op} {k}: code={got} model={lbl[2]}'
+            elif op == 'close':
+                if k in w.open_slots:
+                    w.close(k)
+                    res['script'].append(f'close{k}')
+                else:
+                    div = f'close {k}: not open'
+            if st is not None and div is None:
+                want_open = sorted(j + 1 for j, s in enumerate(st['st'])
+                                   if s == 'open')
+                if w.listening() != want_open:
+                    div = (f'{op} {k}: listening code={w.listening()} '
+                           f'model={want_open}')
+            if div and not res['diverged']:
+                res['diverged'] = f'step {i}: {div}'
+        w.finish()
+        res['l1'] = list(w.l1)
+        res['loop_exceptions'] = [repr(c.get('exception') or c.get('message'))
+                                  for c in w.loop.exceptions]
+    finally:
+        w.stop()
+    return res
